@@ -79,6 +79,14 @@ EVIDENCE_NOTES = [
     "alone reach the return of run() and the end of the thread within rank steps (with exit_returns_variant: a foreign step "
     "raises the rank by at most 2, so finitely many foreign steps delay the return by a bounded number of loop steps); "
     "witness exit_returns_solo_witness (rank 79, 14 steps)",
+    "exit_returns_bounded_interference (C14/ProofsSolo2.v): along ANY continuation schedule from a reachable state with an exit "
+    "pending and the loop thread ranked, rank + (enabled loop steps taken) <= initial rank + 2 * (enabled foreign steps), so "
+    "run() takes at most rank + 2m of its own steps against m foreign steps; hypothesis keeps_ranked (computed along the "
+    "schedule; sufficient: no foreign step rewrites to_exit, lemma foreign_keeps_ranked) - forced by the proof: a SECOND "
+    "muggle_evloop_exit from a foreign thread overwrites a pending EXIT with WAKE (the C code does the same: "
+    "to_exit = MUGGLE_EVLOOP_STATUS_WAKE unconditionally before the wake-up write), which un-ranks the pcs whose rank clause "
+    "reads to_exit = EXIT; the wake-up write that follows re-promotes it, so this is a gap of the variant, not a defect "
+    "(traces of double-exit scenarios are accepted by the model and the monitor); witness with 2 foreign and 12 loop steps",
     "NOT re-proved over the extended model (left unfinished in round 5): the two liveness theorems under fair schedules "
     "(exit_returns_fair, wake_served_fair) that earlier rounds had; the safety invariants, the accounting theorems and the "
     "variant (rank strictly decreasing on the way out, incl. callback scripts, close dispatches, timer callback) hold in "
